@@ -3,6 +3,6 @@ CONSTANTS
   Addr = {"a1", "a2"}
   Node = {"n1", "n2"}
   Procs = {1, 2, 3}
-INVARIANTS TypeOK Partition
+INVARIANTS TypeOK Partition AnswersAgree
 PROPERTIES AnswerAtLin
 CHECK_DEADLOCK FALSE
